@@ -15,7 +15,7 @@ import (
 
 // hop is one step of a client history.
 type hop struct {
-	Op   string `json:"op"`             // start do indicate respond unknown garbage readerr tick fail close setrto mutate
+	Op   string `json:"op"`             // start do indicate respond unknown garbage readerr tick advance fail close setrto mutate
 	ID   int    `json:"id,omitempty"`   // transaction id index
 	Size int    `json:"size,omitempty"` // request size (start/do/indicate), response size (respond)
 	At   string `json:"at,omitempty"`   // tick: before | at | after | far  (relative to the earliest deadline)
@@ -649,6 +649,10 @@ func (e *engine) step(i int, h hop) error {
 	case "fail":
 		e.failArm[h.ID]++
 		e.w.Conn.FailWritesFor(txID(h.ID), 1)
+	case "advance":
+		// time passes without a collector tick (the collector's rate is not the clock's resolution):
+		// what is started next takes its deadlines from the clock as it is then, not from the last tick
+		e.w.Clock.Set(now + time.Duration(h.RTO))
 	case "setrto":
 		e.rtoCur = time.Duration(h.RTO)
 		e.w.Client.SetRTO(e.rtoCur)
